@@ -1,6 +1,8 @@
 import SV.Model.C01
 import SV.Model.C02
 import SV.Model.C11
+import SV.Model.C04
+import SV.Model.C03
 import SV.Model.C09
 import SV.Model.C12
 import SV.Model.C15
@@ -20,6 +22,8 @@ def dispatch (prop : String) : Option (String → String) :=
   | "C01" => some C01.Driver.handle
   | "C02" => some C02.Driver.handle
   | "C11" => some C11.Driver.handle
+  | "C04" => some C04.Driver.handle
+  | "C03" => some C03.Driver.handle
   | "C09" => some C09.Driver.handle
   | "C12" => some C12.Driver.handle
   | "C15" => some C15.Driver.handle
